@@ -8,7 +8,7 @@ META = {
     "technique": "round trip executed on the real code (NumberToString(17|9) then StringToNumber, bits in = bits out) over boundary sets and uniform bit patterns, all 2^32 floats in the thorough tier; the formatter half is cross-checked against the Lean model and an exact-rational reference reading (IEEE 754 round-half-even of the decimal value); Lean theorems only for the decomposition and the zero class",
     "level": "exploration",
     "design_ref": "DESIGN.md §6 C11, notes/design-numtostr.md",
-    "text": "NOT a proof of the property. RoundTrip17/RoundTrip9 are stated in Lean over an abstract parser and reduced (kernel-checked) to a formatter half (the 17-digit text, read exactly and rounded to nearest-even, is the original bits) and a parser half; only the zero class of the formatter half is proved, plus kernel-evaluated boundary instances labelled as tests. The verdict of a run rests on executing the round trip on the real code: quick = boundary sets (powers of two and ten +-2 ulp, every binade, subnormals, short mantissas, short decimals) and 200k uniform doubles under ASan/UBSan plus 3.2M uniform doubles and 16M floats unsanitized; thorough = 24M doubles and all 2^32 float bit patterns (exhaustive, unsanitized -O2 build).",
+    "text": "NOT a proof of the property. RoundTrip17/RoundTrip9 are stated in Lean over an abstract parser and reduced (kernel-checked) to a formatter half (the 17-digit text, read exactly and rounded to nearest-even, is the original bits) and a parser half; proved: the zero class of the formatter half, and for every integer of magnitude below 2^53 that the 17-digit text is exactly its decimal numeral and reads back as exactly the decoded value (roundtrip_small_int); plus kernel-evaluated boundary instances labelled as tests. The verdict of a run rests on executing the round trip on the real code: quick = boundary sets (powers of two and ten +-2 ulp, every binade, subnormals, short mantissas, short decimals) and 200k uniform doubles under ASan/UBSan plus 3.2M uniform doubles and 16M floats unsanitized; thorough = 24M doubles and all 2^32 float bit patterns (exhaustive, unsanitized -O2 build).",
     "note": "Testing, not proof, for everything except the listed theorems. Trusted: the harness, g++/libc for nothing but memcpy of bits; the Lean reference reading (FmtSpec.readBits) is used only to attribute a failure to the formatter or the parser half. The exhaustive float sweep runs on a non-sanitized -O2 build of the same headers.",
 }
 
@@ -17,11 +17,12 @@ THEOREMS = [
     "Qentem.Props.C11.roundtrip9_of_halves",
     "Qentem.Props.C11.identifies17_zero",
     "Qentem.Props.C11.identifies9_zero",
+    "Qentem.Props.C11.roundtrip_small_int",
     "Qentem.Props.C11.identifies_boundary_instances",
 ]
 OPEN = [
     "Qentem.Props.C11.RoundTrip17 / RoundTrip9 (for the real parser): open",
-    "Qentem.Props.C11.Identifies17 / Identifies9 (formatter half for every finite value): open, zero class proved",
+    "Qentem.Props.C11.Identifies17 / Identifies9 (formatter half for every finite value): open; proved for zeros and (as exact value equality) for integers below 2^53",
     "Qentem.Props.C11.ParsesExactly17 / ParsesExactly9 (parser half, belongs to the StrToNum area): open",
 ]
 
@@ -111,7 +112,7 @@ def run(ctx):
             lo = rng.randrange(0, (1 << 32) - (1 << 20))
             sets.append(("--rt-floats", lo, lo + (1 << 20)))
     tested = {"--rt-doubles": 0, "--rt-floats": 0}
-    for a, rc, out in N.run_bulk(fast, sets):
+    for a, rc, out in N.run_bulk(fast, sets, timeout=3000 if ctx.thorough else 400):
         done = [l for l in out.split("\n") if l.startswith("done")]
         if rc != 0 or not done:
             ctx.infra_errors.append("bulk round-trip run %s failed rc=%s: %s" % (a, rc, out[-500:]))
